@@ -43,7 +43,7 @@ def init(ctx):
 def gen_cases(ctx):
     for inp in ctx.corpus():
         yield inp
-    n = ctx.n(360, 6000)
+    n = ctx.n(360, 3000)
     for i in range(n):
         rng = ctx.rng("movie", i)
         mv = linkcommon.gen_movie(rng, thorough=ctx.thorough, plant_history=(i % 2 == 0))
@@ -55,11 +55,12 @@ def gen_cases(ctx):
             mv["missing"] = [k]
             mv["frames"][k] = []
         yield mv
-    m = ctx.n(120, 2500)
+    m = ctx.n(120, 1200)
     for i in range(m):
         rng = ctx.rng("table", i)
         mv = linkcommon.gen_movie(rng, thorough=False)
         mv["stream"] = "table"
+        mv["scale_pow"] = 0
         mv["entry"] = "link"
         mv["index_kind"] = rng.choice(["range", "shuffled", "strings", "duplicates", "named_frame",
                                        "named_other"])
@@ -104,7 +105,12 @@ def run_table_case(ctx, inp):
     elif kind == "named_other":
         df.index = pd.Index(range(n), name="feature_id")
     before = df.copy(deep=True)
-    kw = dict(memory=inp["memory"], pos_columns=cols)
+    kw = dict(memory=inp["memory"])
+    if inp.get("default_cols") and dim >= 2:
+        df = df[cols[::-1] + [c for c in df.columns if c not in cols]]   # x listed before y
+        before = df.copy(deep=True)
+    else:
+        kw["pos_columns"] = cols
     try:
         out = tp.link(df, linkcommon.search_range_arg(inp), **kw)
     except SubnetOversizeException:
